@@ -248,6 +248,8 @@ def collect_obligations(ctx, vfile):
     for i, n in enumerate(names):
         if vfile in ("Properties_gen.v", "Properties_float.v") and not n.startswith(ctx.prop + "_"):
             continue      # the file holds the generated-model theorems of several properties; each check lists its own
+        if vfile == "Properties_links.v" and not re.match({"C01": r"links_", "C05": r"links_(K1|vocabulary)"}.get(ctx.prop, "^$"), n):
+            continue      # item_next link invariant of the writer model's definition lists; jls_rd_open's scans on the writer model's file
         if vfile == "Properties_e2e.v" and not re.match({"C01": r"e2e_", "C05": r"e2e_(L1_|L3_codec)"}.get(ctx.prop, "^$"), n):
             continue      # byte-level end-to-end chain writer model -> file bytes -> reader model -> Spec
         if vfile == "Properties_compose.v" and not re.match(COMPOSE_OF.get(ctx.prop, "^$"), n):
